@@ -27,6 +27,7 @@ type Config struct {
 	FaultKind string // "string" | "table" | "nil" | "number" | "gopanic" | "goruntime"
 	// Ctx, when non-nil, is attached with SetContext before running (implementation only).
 	Ctx context.Context
+	CtxBefore context.Context // attached before Ctx and replaced by it (an earlier, possibly ended, piece of work)
 	// Args passed to the chunk.
 	MaxSteps int
 	// StackLimit for the model (C12).
@@ -90,6 +91,9 @@ func RunImpl(src string, cfg *Config) *ImplRun {
 	r.L = L
 	if !cfg.KeepState {
 		defer L.Close()
+	}
+	if cfg.CtxBefore != nil {
+		L.SetContext(cfg.CtxBefore)
 	}
 	if cfg.Ctx != nil {
 		L.SetContext(cfg.Ctx)
